@@ -548,7 +548,9 @@ def rules(tier):
             # probabilities reach the files with all their digits
             ('C06.R20', _shared_rule('plumbing', 'float_text_exact')),
             # mutation sweep: += 2, a deleted tally, append(section[0]) in base_structure_creation
-            ('C06.R21', _shared_rule('c06', 'r21_unit_tallies'))]
+            ('C06.R21', _shared_rule('c06', 'r21_unit_tallies')),
+            # C06-ea: print_statistics merges the keyboard counters in place
+            ('C06.R22', _shared_rule('plumbing', 'read_only_helpers'))]
 
 
 META = {
